@@ -36,14 +36,15 @@ RULE = ("per model (defaults of HEM/Merton/VG/CGMY, one CGMY draw per activity b
         "(base-class n >= 3 for HEM/Merton/CGMY, CGMY one-sided x^2) get 1e-7*|ref| + 1e-8 (measured <= 3e-10). A fixed list of past failing inputs (the quad-across-zero defect fixed by fd99be5) runs first. Truncations (l, r) are non-zero "
         "break points. non-trivial = |ref| > 1e-9 and a < b; distinct = distinct (model, route, n, a, b, truncation).")
 NOT_PROVED = [
-    "CGMY closed forms (exp1 / gammaincc / gamma recursion of cgmy.py:215-276): compared with quadrature only; Mathlib has no "
-    "incomplete gamma function and the ODE-hypothesis route was not reached",
-    "Merton mass / x / x^2 are theorems only under the explicit hypothesis erf' x = 2/sqrt(pi) exp(-x^2) on a function parameter "
-    "(Mathlib has no erf), for finite real a, b; Merton with infinite end points (erf(+-inf) = +-1) is compared only",
-    "VG mass is a theorem only under the explicit hypothesis E1' x = -exp(-x)/x (x > 0), for finite a <= b on one side of 0; "
-    "VG mass on half-lines (E1 at infinity) is compared only",
+    "special functions: Mathlib has no erf, E1 or incomplete gamma, so Merton (mass, x, x^2), VG mass and CGMY (mass for every "
+    "y < 2, first moment) are theorems for every function satisfying an explicit derivative hypothesis (erf' = 2/sqrt(pi) e^{-x^2}, "
+    "E1' = -e^{-x}/x, d/dz Gamma(2-a, z) = -z^(1-a) e^{-z}; limits at infinity where an end point is infinite), all shown "
+    "satisfiable; that scipy.special's erf / exp1 / gamma*gammaincc are such functions is probed numerically (c09.special_ode) only",
+    "CGMY: the two-sided second moment (gammainc form, cgmy.py:171-190), mass / first moment with an infinite end point and "
+    "intervals touching 0 are compared with quadrature only; CGMY second moment on one side is scipy quad in the code",
+    "Merton x / x^2 and VG x^n with infinite end points: compared only (mass with infinite ends is proved)",
     "x^n exp(-alpha|x|), HEM: an infinite end point together with a straddled zero (e.g. (-inf, b] with b > 0, (-inf, inf)) is "
-    "not stated as one theorem (it is the sum of a proved half-line and a proved finite piece); VG x^n with infinite ends compared only",
+    "not stated as one theorem (it is the sum of a proved half-line and a proved finite piece)",
     "the scipy.integrate.quad fallbacks (base-class integrate_against_xn for n >= 3, CGMY one-sided x^2) are numerical: compared only",
     "float rounding / cancellation of the closed forms (conditioning) is absorbed by the tolerance, not modelled",
 ]
@@ -52,11 +53,13 @@ ASSUMPTIONS = ["the density of each family is the formula of its `__call__` eval
                "quadrature of `nu.__call__` (c09.own_density)"]
 TRUSTED = ["mpmath.quad (tanh-sinh, 30 digits) and mpmath.exp as the reference",
            "scipy.special erf / exp1 / gamma / gammainc(c); the ODE hypotheses of merton_* / vg_mass_* (erf' = 2/sqrt(pi) e^{-x^2}, "
-           "E1' = -e^{-x}/x) are probed numerically on scipy's erf / exp1 (c09.special_ode), not proved of them"]
+           "E1' = -e^{-x}/x, d/dz Gamma(2-a, z) = -z^(1-a) e^{-z}) are probed numerically on scipy's erf / exp1 / gamma*gammaincc "
+           "(c09.special_ode), not proved of them"]
 
 LEAN_TARGETS = ["RpylibModel.Proofs.C09", "RpylibModel.Proofs.Lemmas.C09Abstract", "RpylibModel.Proofs.Lemmas.C09XnExp",
                 "RpylibModel.Proofs.Lemmas.C09Terms", "RpylibModel.Proofs.Lemmas.C09Hem", "RpylibModel.Proofs.Lemmas.C09Vg",
-                "RpylibModel.Proofs.Lemmas.C09Special", "RpylibModel.Proofs.Lemmas.C09Improper", "RpylibModel.Model.Integrals"]
+                "RpylibModel.Proofs.Lemmas.C09Special", "RpylibModel.Proofs.Lemmas.C09Improper",
+                "RpylibModel.Proofs.Lemmas.C09SpecialInf", "RpylibModel.Proofs.Lemmas.C09Cgmy", "RpylibModel.Model.Integrals"]
 
 _STATS = {} if os.environ.get("C09_STATS") else None
 
@@ -664,6 +667,24 @@ def special_ode_probe(ctx, rng, count):
             ctx.fail("corr", "c09.special_ode", inp, {"name": "hypothesis hE1 of vg_mass_pos/_neg on scipy.special.exp1", "scipy": float(sp.exp1(y))}, cls={})
 
 
+def special_gamma_probe(ctx, rng, count):
+    """hypothesis hG of cgmy_mass_* / cgmy_x_*: scipy's gamma(2-a)*gammaincc(2-a, z) is mpmath's upper incomplete gamma,
+    whose z-derivative is -z^(1-a) e^{-z}"""
+    import scipy.special as sp
+    for _ in range(count):
+        a = rng.choice([rng.uniform(-0.8, 0.99), rng.uniform(1.01, 1.8), 0.5, -0.5])
+        z = math.exp(rng.uniform(math.log(1e-3), math.log(30)))
+        inp = dict(fn="gamma(2-a)*gammaincc(2-a,z)", a=a, x=z)
+        ctx.count("c09.special_ode", inp, nontrivial=True, branch="gammaincc")
+        got = float(sp.gamma(2 - a) * sp.gammaincc(2 - a, z))
+        with mp.workdps(40):
+            G = lambda t: mp.gammainc(2 - M(a), t)
+            ok = abs(M(got) - G(M(z))) <= mp.mpf("1e-12") * abs(G(M(z))) + mp.mpf("1e-300") and \
+                abs(mp.diff(G, M(z)) + M(z) ** (1 - M(a)) * mp.exp(-M(z))) <= mp.mpf("1e-20") * max(1, M(z) ** (1 - M(a)))
+        if not ok:
+            ctx.fail("corr", "c09.special_ode", inp, {"name": "hypothesis hG of cgmy_mass_pos/_neg, cgmy_x_pos/_neg on scipy gamma*gammaincc", "scipy": got}, cls={})
+
+
 class _Generic(LevyMeasure):
     """a measure that only defines its density: exercises every base-class quadrature fallback (levymodel.py:81-110)"""
 
@@ -774,6 +795,7 @@ def run(ctx):
         run_model(ctx, fam, params, rng, nside, ntrunc=ctx.n(2, 3))
     xn_helper_stream(ctx, rng, ctx.n(90, 900))
     special_ode_probe(ctx, rng, ctx.n(20, 100))
+    special_gamma_probe(ctx, rng, ctx.n(20, 100))
     for fam in ("hem", "merton"):
         for _ in range(ctx.n(1, 6)):
             generic_fallback_probe(ctx, rng, fam, zoo.draw_params(rng, fam), 2)
